@@ -258,7 +258,8 @@ def harness_run(cfg, binp, outdir, seed, n, tier, log, extra=None):
 
 
 def coq_cases(outdir, log):
-    files = sorted(glob.glob(os.path.join(outdir, "cases_*.v")))
+    files = sorted(glob.glob(os.path.join(outdir, "cases_*.v")),
+                   key=lambda f: int(re.search(r"_(\d+)\.v$", f).group(1)))
     results = {}
 
     def one(path):
